@@ -26,7 +26,13 @@ def _drive_one(case, e):
         warnings.simplefilter("ignore")
         from pymbolic.mapper.stringifier import PREC_NONE, StringifyMapper
         strify = lambda obj: StringifyMapper()(obj, PREC_NONE)  # noqa: E731  (what str(expr) does)
-        s1 = strify(e)
+        try:
+            s1 = strify(e)
+        except RecursionError:
+            raise
+        except Exception as exc:  # noqa: BLE001  (printing itself refuses: a verdict, not a machinery failure)
+            return {"id": case["id"], "e": case["e"], "s1": "<" + type(exc).__name__ + ">",
+                    "p": {"r": "noprint", "v": ser.exc_to_json(exc)}, "s2": "", "toks": []}
         p = ser.obj_to_json(lambda: parse(s1))
         s2 = ""
         if p["r"] == "ok":
@@ -105,7 +111,8 @@ def classify(out, verdicts, byid):
             continue
         rec = byid[v["id"]]
         es = edges(rec["e"])
-        hit = next((sig for edge, sig in known_edges if edge in es), None)
+        # no listed finding is about printing raising: such a case is never attributed to one
+        hit = None if "print-raises" in cl else next((sig for edge, sig in known_edges if edge in es), None)
         if hit is not None:
             sig = hit
         else:
